@@ -126,6 +126,8 @@ verus_unit("f128v", "f128", ["C07"], ["f128::inv (partial correctness: canonical
 verus_unit("f128e", "f128e", ["C07"], ["f128::BaseElement::new", "f128::Add/Sub/Mul/Div/Neg", "f128::FieldElement::inv", "traits::FieldElement::double / square / exp / exp_vartime (u128 instantiation for the 128-bit field)", "traits::StarkField::get_root_of_unity (128-bit instantiation: order exactly 2^n for every admissible n)"])
 verus_unit("fconsts", "fconsts", ["C07"], ["f64/f62/f128: MODULUS, TWO_ADICITY, TWO_ADIC_ROOT_OF_UNITY, GENERATOR"])
 verus_unit("extinv", "extinv", ["C08"], ["QuadExtension::inv", "CubeExtension::inv"])
+verus_unit("extwrap", "extwrap", ["C08"], ["QuadExtension / CubeExtension::{new, to_base_elements, base_element, double, square, conjugate, mul_base, From<B>}",
+                                            "QuadExtension / CubeExtension: Add, Sub, Mul, Div, Neg (each hands the right coefficients to the right base-field / ExtensibleField operation)"])
 
 PROPS["C08"] = dict(
     level="proof", verus=True,
@@ -135,8 +137,9 @@ PROPS["C08"] = dict(
                "modulo p, for all operands; the proof bookkeeping is generated mechanically from the body text.",
     level_note="Assumed (cross-unit): the residue-level contracts of the base-field operators (+, -, *, neg, double, square, new), "
                "which C07's units establish for the real code. Extension inversion is decided structurally only (zero test on every coefficient, the norm-based formula, the "
-               "code's debug assertions) against an abstract base field; that the formula is the inverse is assumed. Not covered: the "
-               "generic wrapper types' operator plumbing, the Frobenius constants being phi^p (they are compared with the documented "
+               "code's debug assertions) against an abstract base field; that the formula is the inverse is assumed. The generic wrapper types' plumbing (new, to_base_elements, "
+               "base_element, double, square, conjugate, mul_base, + - * / neg, From<B>) is proved against an abstract base field (unit extwrap). Not covered: the "
+               "Frobenius constants being phi^p (they are compared with the documented "
                "values only), slice reinterpretation.",
     explanation="",
 )
